@@ -198,6 +198,8 @@ def model(nodes, root, ignored, submods, opts):
                 # inside a submodule that is included: its own ignore rules are the submodule's business
                 if opts["submodules"] and any(rel.startswith(s + "/") for s in submods):
                     is_grey = True
+            if f == ".git" and why is None:
+                is_grey = True  # a .git *file* is VCS metadata too; the statement only names directories
             if is_grey:
                 grey.add(rel)
             elif why is None:
@@ -284,6 +286,14 @@ def setup_git(rng, root, nodes):
                 fp.write("subprojects/libwrap/\n")
         except OSError:
             pass
+    if rng.random() < 0.3 and not os.path.lexists(root / "sepgit"):
+        # a directory that has a .git *file* (a clone with --separate-git-dir, a linked work tree) and is nobody's submodule:
+        # its files are the project's like any others
+        r = trees.git(root, "init", "-q", "--separate-git-dir", str(root.parent / (root.name + "-sepgitdir")), "sepgit", check=False)
+        if r.returncode == 0 and (root / "sepgit" / ".git").is_file():
+            (root / "sepgit" / "inner.py").write_text("not a submodule\n")
+            (root / "sepgit" / "deep").mkdir()
+            (root / "sepgit" / "deep" / "er.c").write_text("int x;\n")
     if mode == "manual":
         (root / "manualsub").mkdir(exist_ok=True)
         (root / "manualsub" / "m.py").write_text("manual submodule file\n")
@@ -433,6 +443,26 @@ def run_case(case, ctx):
                     if m:
                         seen.add(trees.norm_path(m.group(1), root))
                 judge(seen, "lint-file")
+        # (b2) spdx -o FILE, twice, on a copy; FILE lies in the project and has no SPDX name: at the second run it is a covered
+        # file like any other (it exists and is not empty when the command starts)
+        if case["k"] % 3 == 0 and not os.path.lexists(root / "bom.txt"):
+            bcopy = root.parent / "bomcopy"
+            shutil.copytree(root, bcopy, symlinks=True)
+            try:
+                g3 = [g if g != str(root) else str(bcopy) for g in gopts]
+                for turn in (1, 2):
+                    rb = run_cli(g3 + ["spdx", "-o", str(bcopy / "bom.txt")], cwd=str(bcopy))
+                if rb.escaped or rb.exit_code != 0 or not (bcopy / "bom.txt").is_file():
+                    res.cell("spdx-o-twice:refused")
+                else:
+                    names = {v[2:] if v.startswith("./") else v for t, v in tv.parse_tv((bcopy / "bom.txt").read_text(encoding="utf-8", errors="replace")) if t == "FileName"}
+                    if "bom.txt" not in names and "bom.txt" not in ignored:
+                        res.violation("skipped:output-file-of-the-run-before", "spdx -o bom.txt (second run): bom.txt was a covered file when the command "
+                                      "started and has no File section", names=sorted(names)[:20])
+                    judge(names - {"bom.txt"}, "spdx -o (second run)")
+                    res.cell("spdx-o-twice")
+            finally:
+                shutil.rmtree(bcopy, ignore_errors=True)
         # (c0) lint-file without any file examines nothing at all
         r = run_cli(gopts + ["lint-file"], cwd=str(root))
         res.cell("lint-file:no-arguments")
